@@ -1,15 +1,19 @@
 import KrakenModel.Model.BackendSpec
 import KrakenModel.Proof.C37
+import KrakenModel.Proof.C37b
 /-
   C37  Backend clients honour the storage contract.
 
-  The statements are about the *specification* `Model.BackendSpec` (an abstract store, an
-  S3-style server pager and the page-accumulating client loop of s3backend.Client.List), for an
-  arbitrary name type, an arbitrary strict total key order `lt` and an arbitrary prefix-matching
-  predicate.  The backends themselves (testfs, sqlbackend, s3backend over an in-memory S3,
-  shadowbackend) are tied to this specification by refinement testing only (their SDKs, SQLite
-  and the file system are outside any model): the driver instantiates the specification with
-  each backend's key mapping and matching relation and compares every answer.
+  Part A states the contract on the *specification* `Model.BackendSpec` (an abstract store), for
+  an arbitrary name type, strict total key order `lt` and prefix-matching predicate: these are
+  facts about the specification (they say what the contract is and that it is consistent), not
+  about any backend.  Part B is about models of code that exists in /repo and proves that these
+  models refine the specification: the page-callback loop of s3backend.Client.List over an
+  S3-style server pager (foreign keys, short pages, paginated and not), shadowbackend.Client over
+  two wrapped backends, and sqlbackend.Client over an abstract table (upsert, `First`, the two
+  `ORDER BY` queries).  testfs, the AWS SDK, gorm/SQLite and the file system are outside any
+  model: all four backends are tied to the specification — and the three models of part B to the
+  code — by refinement testing (the driver runs these very definitions).
 
   Quantifiers: every history of uploads/reads (unbounded), every name and content, every
   matching predicate, every page size ≥ 1 and every server-side page limit ≥ 1.
@@ -81,66 +85,198 @@ theorem list_exactly_the_stored_names {lt : Name → Name → Bool} (ho : Strict
   rw [hiff]
   exact And.comm
 
-/-- **C37 (4)** Paginated listing: for every page size `maxKeys ≥ 1` and every server-side page
-limit `cap ≥ 1`, following the continuation tokens from the start hands out the stored names
-under the prefix in key order; the pages partition them. -/
-theorem paginated_listing_partitions {lt : Name → Name → Bool} (ho : StrictOrder lt)
-    (matchesP : Name → Bool) (ops : List (Op Name)) (maxKeys cap : Nat) (hk : 1 ≤ maxKeys) (hc : 1 ≤ cap) :
-    let ks := list matchesP (run lt ops)
-    (listAll lt ks maxKeys cap (ks.length + 1) none).flatten = ks := by
-  intro ks
-  have hs : Sorted lt ks := sorted_filter matchesP _ (run_sorted ho ops)
-  have := listAll_spec ho maxKeys cap hk hc (ks.length + 1) [] ks none (by simpa using hs) (Or.inl ⟨rfl, rfl⟩)
+/-- **C37 (4)** (model of s3backend.Client.List's page loop) Paginated listing: for every page size
+`maxKeys ≥ 1`, every server-side page limit `cap ≥ 1` and whatever foreign keys (objects under the
+prefix that do not convert back to a name: they are skipped by the client but counted by the
+server) lie between them, following the continuation tokens from the start hands out the stored
+names under the prefix in key order; the pages partition them. `ks` = all keys the server lists
+under the prefix, `conv` = "converts back to a name". -/
+theorem paginated_listing_partitions {lt : Name → Name → Bool} (ho : StrictOrder lt) (conv : Name → Bool)
+    (ks : List Name) (hs : Sorted lt ks) (maxKeys cap : Nat) (hk : 1 ≤ maxKeys) (hc : 1 ≤ cap) :
+    (listAll lt conv ks maxKeys cap (ks.length + 1) none).flatten = ks.filter conv := by
+  have := listAll_spec ho conv maxKeys cap hk hc (ks.length + 1) [] ks none (by simpa using hs) (Or.inl ⟨rfl, rfl⟩)
     (Nat.lt_succ_self _)
   simpa using this
 
-/-- … hence every stored name under the prefix appears on exactly one page, exactly once, and
-nothing else appears. -/
+/-- … hence, over the store after any history, every stored name under the prefix appears on
+exactly one page, exactly once, and nothing else appears. -/
 theorem paginated_listing_exactly_once {lt : Name → Name → Bool} (ho : StrictOrder lt)
     (matchesP : Name → Bool) (ops : List (Op Name)) (maxKeys cap : Nat) (hk : 1 ≤ maxKeys) (hc : 1 ≤ cap) (n : Name) :
     let ks := list matchesP (run lt ops)
-    let all := (listAll lt ks maxKeys cap (ks.length + 1) none).flatten
+    let all := (listAll lt (fun _ => true) ks maxKeys cap (ks.length + 1) none).flatten
     ((matchesP n = true ∧ ∃ b, Op.upload n b ∈ ops) → all.count n = 1) ∧
     (¬ (matchesP n = true ∧ ∃ b, Op.upload n b ∈ ops) → all.count n = 0) := by
   intro ks all
-  have hall : all = ks := paginated_listing_partitions ho matchesP ops maxKeys cap hk hc
+  obtain ⟨hnd, hsorted, hmem⟩ := list_exactly_the_stored_names ho matchesP ops
+  have hall : all = ks := by
+    have := paginated_listing_partitions ho (fun _ => true) ks hsorted maxKeys cap hk hc
+    rw [List.filter_eq_self.mpr (fun _ _ => rfl)] at this
+    exact this
   rw [hall]
-  obtain ⟨hnd, _, hmem⟩ := list_exactly_the_stored_names ho matchesP ops
   refine ⟨fun h => ?_, fun h => List.count_eq_zero.mpr (fun hm => h ((hmem n).mp hm))⟩
   rw [hnd.count]; simp [(hmem n).mpr h]
 
-/-- One client page never stops short: it carries at least `maxKeys` names unless the listing
-is finished (so a caller asking for `maxKeys` names per page makes progress every time). -/
-theorem first_page_full_or_final {lt : Name → Name → Bool} (ho : StrictOrder lt)
-    (ks : List Name) (hs : Sorted lt ks) (maxKeys cap : Nat) (hk : 1 ≤ maxKeys) (hc : 1 ≤ cap) :
-    let r := clientPage lt ks maxKeys cap (ks.length + 1) none []
-    (r.2 = none ∧ r.1 = ks) ∨ (r.2 ≠ none ∧ 1 ≤ r.1.length ∧ ∃ j, r.1 = ks.take j) := by
-  intro r
-  obtain ⟨j, hj1, hj2, hj3⟩ := clientPage_spec ho maxKeys cap hk hc (ks.length + 1) [] ks [] none
+/-- A List without pagination (`limit = none`: the loop as it is after the repair) reads every
+server page: it returns all convertible keys and no token, whatever ListMaxKeys and the server's
+page limit are. -/
+theorem unpaginated_listing_complete {lt : Name → Name → Bool} (ho : StrictOrder lt) (conv : Name → Bool)
+    (ks : List Name) (hs : Sorted lt ks) (listMaxKeys cap : Nat) (hk : 1 ≤ listMaxKeys) (hc : 1 ≤ cap) :
+    clientPage lt conv ks listMaxKeys cap none (ks.length + 1) none [] = (ks.filter conv, none) := by
+  obtain ⟨j, hj1, hj2, hj3⟩ := clientPage_spec ho conv listMaxKeys cap none hk hc (ks.length + 1) [] ks [] none
     (by simpa using hs) (Or.inl ⟨rfl, rfl⟩) (Nat.lt_succ_self _)
   simp only [List.nil_append] at hj2 hj3
-  rcases hj3 with ⟨h1, h2⟩ | ⟨h1, h2, h3⟩
+  rcases hj3 with ⟨h1, h2⟩ | ⟨_, _, _, n, hn, _⟩
+  · have htake : ks.take j = ks := by
+      have := List.take_append_drop j ks
+      rw [h2, List.append_nil] at this
+      exact this
+    rw [htake] at hj2
+    exact Prod.ext hj2 h1
+  · exact absurd hn (by simp)
+
+/-- A page that comes with a continuation token carries at least `maxKeys` names; a page without
+one ends the listing (so a caller asking for `maxKeys` names per page makes progress every time,
+also across server pages full of foreign keys). -/
+theorem page_full_or_final {lt : Name → Name → Bool} (ho : StrictOrder lt) (conv : Name → Bool)
+    (ks : List Name) (hs : Sorted lt ks) (maxKeys cap : Nat) (hk : 1 ≤ maxKeys) (hc : 1 ≤ cap) :
+    let r := clientPage lt conv ks maxKeys cap (some maxKeys) (ks.length + 1) none []
+    (r.2 = none ∧ r.1 = ks.filter conv) ∨ (r.2 ≠ none ∧ maxKeys ≤ r.1.length ∧ ∃ j, r.1 = (ks.take j).filter conv) := by
+  intro r
+  obtain ⟨j, hj1, hj2, hj3⟩ := clientPage_spec ho conv maxKeys cap (some maxKeys) hk hc (ks.length + 1) [] ks [] none
+    (by simpa using hs) (Or.inl ⟨rfl, rfl⟩) (Nat.lt_succ_self _)
+  simp only [List.nil_append] at hj2 hj3
+  rcases hj3 with ⟨h1, h2⟩ | ⟨h1, h2, h3, n, hn, hlen⟩
   · left
     refine ⟨h1, ?_⟩
-    show (clientPage lt ks maxKeys cap (ks.length + 1) none []).1 = ks
+    show (clientPage lt conv ks maxKeys cap (some maxKeys) (ks.length + 1) none []).1 = ks.filter conv
     rw [hj2]
     have := List.take_append_drop j ks
     rw [h2, List.append_nil] at this
-    exact this
+    rw [this]
   · right
-    refine ⟨?_, ?_, j, hj2⟩
-    · intro hnone
-      rw [show r.2 = (clientPage lt ks maxKeys cap (ks.length + 1) none []).2 from rfl] at hnone
-      rw [hnone] at h3
-      rcases h3 with ⟨hd, _⟩ | ⟨hne, hl⟩
-      · have hjl : (ks.take j).length = j := by rw [List.length_take]; omega
-        have htk : ks.take j = [] := by simpa using hd
-        rw [htk] at hjl
-        simp at hjl
-        omega
-      · exact hne (List.getLast?_eq_none_iff.mp hl.symm)
-    · show 1 ≤ (clientPage lt ks maxKeys cap (ks.length + 1) none []).1.length
-      rw [hj2, List.length_take]; omega
+    have hn' : n = maxKeys := by simpa using hn.symm
+    subst hn'
+    refine ⟨?_, hlen, j, hj2⟩
+    intro hnone
+    rw [show r.2 = (clientPage lt conv ks n cap (some n) (ks.length + 1) none []).2 from rfl] at hnone
+    rw [hnone] at h3
+    rcases h3 with ⟨hd, _⟩ | ⟨hne, hl⟩
+    · have hjl : (ks.take j).length = j := by rw [List.length_take]; omega
+      have htk : ks.take j = [] := by simpa using hd
+      rw [htk] at hjl
+      simp at hjl
+      omega
+    · exact hne (List.getLast?_eq_none_iff.mp hl.symm)
+
+/-! ## Part B: models of backend code refine the specification -/
+
+section shadow
+open KrakenModel.ShadowBackend
+
+/-- **C37 (5)** shadowbackend: for every history through the shadow client (sources positioned
+at their start; seekable or not), what the client answers is what the specification answers for
+the same history with the refused uploads left out: Download, Stat and List agree. -/
+theorem shadow_refines_spec (lt : Name → Name → Bool) (ops : List (ShadowBackend.Op Name))
+    (hc : ClientHistory ops) (n : Name) (matchesP : Name → Bool) :
+    let sp := BackendSpec.run lt (shadowSpecOps ops)
+    sdownload (ShadowBackend.run lt ops) n = download sp n ∧
+    sstat (ShadowBackend.run lt ops) n = stat sp n ∧
+    slist matchesP (ShadowBackend.run lt ops) = list matchesP sp := by
+  intro sp
+  obtain ⟨ha, hs⟩ := shadow_run_foldl lt ops {} [] hc rfl rfl
+  have ha' : (ShadowBackend.run lt ops).active = sp := ha
+  have hs' : (ShadowBackend.run lt ops).shadow = sp := hs
+  refine ⟨by simp [sdownload, ha'], ?_, by simp [slist, ha']⟩
+  simp only [sstat, ha', hs']
+  cases stat sp n <;> rfl
+
+/-- a source that cannot seek is refused and nothing is written -/
+theorem shadow_refuses_unseekable (lt : Name → Name → Bool) (s : State Name) (n : Name) (src : Source)
+    (h : src.seekable = false) : ShadowBackend.upload lt s n src = (s, .refused) := by
+  simp [ShadowBackend.upload, h]
+
+/-- Stat in general (also when one side was written directly): found iff both sides have the
+name, and then with the active side's size -/
+theorem shadow_stat_needs_both (s : State Name) (n : Name) (k : Nat) :
+    sstat s n = some k ↔ (stat s.active n = some k ∧ (stat s.shadow n).isSome = true) := by
+  simp only [sstat]
+  cases stat s.active n <;> cases stat s.shadow n <;> simp
+
+end shadow
+
+section sql
+open KrakenModel.SqlBackend
+variable {Repo Tag : Type} [DecidableEq Repo] [DecidableEq Tag]
+
+/-- **C37 (6)** sqlbackend, Download/Stat: `Where(repo, tag).First` on the table after any history
+of upserts is the specification's lookup under the key (repo, tag). -/
+theorem sql_first_refines_spec (lt : Repo × Tag → Repo × Tag → Bool) (ops : List (SqlBackend.Op Repo Tag))
+    (r : Repo) (t : Tag) :
+    first (SqlBackend.run ops) r t = lookup (BackendSpec.run lt (specOps ops)) (r, t) := by
+  unfold SqlBackend.run BackendSpec.run
+  rw [first_foldl ops r t [], lookup_foldl lt (specOps ops) (r, t) []]
+  cases lastUpload (specOps ops) (r, t) <;> simp [first, lookup]
+
+/-- **C37 (7)** sqlbackend, List of a repository: `SELECT tag WHERE repository = r ORDER BY tag` is
+the specification's listing under "same repository", in the same (key) order. -/
+theorem sql_tags_query_refines_spec {ltRepo : Repo → Repo → Bool} {ltTag : Tag → Tag → Bool}
+    (hr : StrictOrder ltRepo) (ht : StrictOrder ltTag) (ops : List (SqlBackend.Op Repo Tag)) (r : Repo) :
+    tagsQuery ltTag (SqlBackend.run ops) r =
+      (list (fun k => decide (k.1 = r)) (BackendSpec.run (ltPair ltRepo ltTag) (specOps ops))).map (·.2) := by
+  have hp := ltPair_strict hr ht
+  obtain ⟨hsl, hml⟩ := orderBy_spec ht (((SqlBackend.run ops).filter fun row => row.repo = r).map (·.tag))
+  apply sorted_ext ht _ _ hsl
+  · -- the specification's listing of one repository is sorted by tag
+    have hs := sorted_filter (fun k => decide (k.1 = r)) _ (run_sorted hp (specOps ops))
+    unfold Sorted at hs ⊢
+    rw [List.pairwise_map]
+    refine List.Pairwise.imp_of_mem ?_ hs
+    intro a b ha hb hab
+    have ha1 : a.1 = r := by simpa using (List.mem_filter.mp ha).2
+    have hb1 : b.1 = r := by simpa using (List.mem_filter.mp hb).2
+    simp only [ltPair, Bool.or_eq_true, Bool.and_eq_true, decide_eq_true_eq] at hab
+    rcases hab with h | ⟨_, h⟩
+    · rw [ha1, hb1, hr.irrefl] at h; exact absurd h (by simp)
+    · exact h
+  · intro t
+    rw [hml t]
+    have h1 : t ∈ (List.filter (fun row => decide (row.repo = r)) (SqlBackend.run ops)).map (·.tag) ↔
+        (first (SqlBackend.run ops) r t).isSome = true := by
+      rw [← mem_table_iff_first]
+      simp only [List.mem_map, List.mem_filter, decide_eq_true_eq]
+      constructor
+      · rintro ⟨row, ⟨hm, hrr⟩, htt⟩; exact ⟨row, hm, hrr, htt⟩
+      · rintro ⟨row, hm, hrr, htt⟩; exact ⟨row, ⟨hm, hrr⟩, htt⟩
+    rw [h1, sql_first_refines_spec (ltPair ltRepo ltTag) ops r t, ← mem_keys_iff_lookup]
+    simp only [list, List.mem_map, List.mem_filter, decide_eq_true_eq]
+    constructor
+    · intro hk; exact ⟨(r, t), ⟨hk, rfl⟩, rfl⟩
+    · rintro ⟨k, ⟨hk, hk1⟩, hk2⟩
+      have : k = (r, t) := Prod.ext hk1 hk2
+      rw [← this]; exact hk
+
+/-- **C37 (8)** sqlbackend, List "": the catalog query lists exactly the repositories that hold at
+least one tag, each once, in order. -/
+theorem sql_catalog_lists_repositories {ltRepo : Repo → Repo → Bool} (hr : StrictOrder ltRepo)
+    (lt : Repo × Tag → Repo × Tag → Bool) (ops : List (SqlBackend.Op Repo Tag)) :
+    Sorted ltRepo (catalogQuery ltRepo (SqlBackend.run ops)) ∧ (catalogQuery ltRepo (SqlBackend.run ops)).Nodup ∧
+    ∀ r, r ∈ catalogQuery ltRepo (SqlBackend.run ops) ↔ ∃ t, (r, t) ∈ keys (BackendSpec.run lt (specOps ops)) := by
+  obtain ⟨hs, hm⟩ := orderBy_spec hr ((SqlBackend.run ops).map (·.repo))
+  refine ⟨hs, sorted_nodup hr _ hs, ?_⟩
+  intro r
+  rw [catalogQuery, hm r]
+  simp only [List.mem_map]
+  constructor
+  · rintro ⟨row, hmem, hrr⟩
+    refine ⟨row.tag, ?_⟩
+    rw [mem_keys_iff_lookup, ← sql_first_refines_spec lt ops r row.tag, ← mem_table_iff_first]
+    exact ⟨row, hmem, hrr, rfl⟩
+  · rintro ⟨t, hk⟩
+    rw [mem_keys_iff_lookup, ← sql_first_refines_spec lt ops r t, ← mem_table_iff_first] at hk
+    obtain ⟨row, hmem, hrr, _⟩ := hk
+    exact ⟨row, hmem, hrr⟩
+
+end sql
 
 -- non-vacuity: natural-number names with `<`
 theorem natOrder : StrictOrder (fun a b : Nat => decide (a < b)) :=
@@ -149,8 +285,10 @@ theorem natOrder : StrictOrder (fun a b : Nat => decide (a < b)) :=
 example : run (fun a b : Nat => decide (a < b)) [.upload 3 [1], .upload 1 [2, 2], .other, .upload 3 [], .upload 2 [9]]
     = [(1, [2, 2]), (2, [9]), (3, [])] := by decide
 example : download (run (fun a b : Nat => decide (a < b)) [.upload 3 [1], .upload 3 []]) 3 = .bytes [] := by decide
-example : listAll (fun a b : Nat => decide (a < b)) [1, 2, 3, 4, 5, 6, 7] 3 2 8 none = [[1, 2, 3, 4], [5, 6, 7]] := by decide
-example : listAll (fun a b : Nat => decide (a < b)) [1, 2, 3, 4, 5, 6] 2 5 7 none = [[1, 2], [3, 4], [5, 6]] := by decide
-example : clientPage (fun a b : Nat => decide (a < b)) [1, 2, 3, 4, 5] 2 1 6 (some 2) [] = ([3, 4], some 4) := by decide
+example : listAll (fun a b : Nat => decide (a < b)) (fun _ => true) [1, 2, 3, 4, 5, 6, 7] 3 2 8 none = [[1, 2, 3, 4], [5, 6, 7]] := by decide
+example : listAll (fun a b : Nat => decide (a < b)) (fun _ => true) [1, 2, 3, 4, 5, 6] 2 5 7 none = [[1, 2], [3, 4], [5, 6]] := by decide
+-- foreign keys (odd numbers) between the names: skipped, pages still partition the names
+example : listAll (fun a b : Nat => decide (a < b)) (fun n => n % 2 == 0) [1, 2, 3, 5, 7, 8, 9, 10, 11] 2 2 10 none = [[2, 8], [10]] := by decide
+example : clientPage (fun a b : Nat => decide (a < b)) (fun _ => true) [1, 2, 3, 4, 5] 2 1 (some 2) 6 (some 2) [] = ([3, 4], some 4) := by decide
 
 end KrakenModel.Spec.C37
